@@ -451,7 +451,13 @@ func BatchFunc[T any](
 				out.err = err
 				return
 			}
-			c <- item
+			select {
+			case c <- item:
+			case <-bgCtx.Done():
+				// Close was called while the batcher is no longer receiving; without this the
+				// producer would block forever and Close would never return.
+				return
+			}
 		}
 	}()
 
